@@ -1,4 +1,7 @@
+import CuqiVerif.Props.C05
 import CuqiVerif.Proofs.C05_reject
+import Mathlib.MeasureTheory.Function.SpecialFunctions.Basic
+import Mathlib.MeasureTheory.Constructions.BorelSpace.Order
 /-
   C05 — from the pointwise rejection identities of the ModifiedHalfNormal loops to the LAW of an accepted draw
   (item "the step from the MHN rejection identities to the law of the accepted draw" of the remaining-gap list).
@@ -7,7 +10,7 @@ import CuqiVerif.Proofs.C05_reject
   `[0, 1)`), and accepts when `log U < bound(X)`, i.e. `U < exp(bound X) =: eb X`.  The theorems below are equalities of
   measures on the product space `proposal × uniform`; they hold for every measurable space of proposals.
 -/
-open MeasureTheory ENNReal Set
+open MeasureTheory ENNReal Set CuqiVerif CuqiVerif.RExpr
 
 namespace CuqiVerif.C05
 
@@ -48,6 +51,68 @@ theorem rejection_cond_law (lam : Measure α) [SFinite lam] (g f eb : α → ℝ
 /-- the hypotheses are satisfiable: proposal density `exp(-t²/2)`, bound `-t²/2`, target `exp(-t²)`, `c = 1` -/
 example : ∀ t : ℝ, Real.exp (-(t ^ 2) / 2) * Real.exp (-(t ^ 2) / 2) = 1 * Real.exp (-(t ^ 2)) := by
   intro t; rw [← Real.exp_add, one_mul]; congr 1; ring
+
+/-- **Bounds above 0 are capped.**  Without the hypothesis `eb ≤ 1`: the uniform variate lives on `[0, 1)`, so an iteration
+    accepts with probability `min(eb, 1)` — accepted points follow `proposal × min(1, exp bound)`, not `proposal × exp bound`.
+    This is what happens in `_MHN_sample_normal_proposal`, whose coded bound exceeds 0 near `μ` for `α > 2`, `μ > 1`
+    (`mhn_normal_bound_positive_counterexample`; known finding `MHN:_MHN_sample:np:accept-prob>1`). -/
+theorem rejection_accepted_mass_capped (μ : Measure α) [SFinite μ] (eb : α → ℝ) (heb : Measurable eb)
+    (S : Set α) (hS : MeasurableSet S) :
+    (μ.prod unif01) {p | p.1 ∈ S ∧ p.2 < eb p.1} = ∫⁻ t in S, ENNReal.ofReal (min (eb t) 1) ∂μ :=
+  rejection_accepted_mass_capped' μ eb heb S hS
+
+example : min (Real.exp 1) 1 = 1 := min_eq_right (Real.one_le_exp zero_le_one)
+
+/-- the coded sqrt-gamma bound in closed form (used for measurability) -/
+lemma gpAccept_eval (t α β γ : ℝ) :
+    eval (env4 t α β γ) (Mhn.gpAccept (var 1) (var 2) (var 3) (var 0))
+      = -(β - mhnDelta α β γ) * t + γ * Real.sqrt t - γ * γ / (4 * (β - mhnDelta α β γ)) := by
+  have hd := delta_indep t α β γ
+  simp only [Mhn.gpAccept, eval_sub, eval_add, eval_mul, eval_neg, eval_div, eval_var, env4_0, env4_2, env4_3, hd]
+  simp only [eval]
+  norm_num
+
+/-- **The sqrt-gamma loop as coded draws from the MHN density.**  `_MHN_sample_gamma_proposal`: proposal `X = √T`,
+    `T ~ gamma(α/2, scale 1/δ)` (density of `X` proportional to `g(x) = x^(α-1) exp(-δ x²)` on `x > 0`), accepted when
+    `X > 0 and log U < bound(X²)` with the bound of the model (`Mhn.gpAccept`, the expression the driver evaluates).
+    Conditioned on acceptance, `X` has the law with density `x^(α-1) exp(-β x² + γ x)` on `(0, ∞)`, normalised — the
+    density `ModifiedHalfNormal.logpdf` reports — for all real `α, β, γ` with `δ < β` (the case whenever `γ > 0`). -/
+theorem mhn_gamma_rejection_law (α β γ : ℝ) (hδ : mhnDelta α β γ < β) :
+    let g : ℝ → ℝ := fun x => if 0 < x then x ^ (α - 1) * Real.exp (-(mhnDelta α β γ) * x ^ 2) else 0
+    let eb : ℝ → ℝ := fun x =>
+      if 0 < x then Real.exp (eval (env4 (x ^ 2) α β γ) (Mhn.gpAccept (var 1) (var 2) (var 3) (var 0))) else 0
+    let f : ℝ → ℝ := fun x => if 0 < x then x ^ (α - 1) * Real.exp (-β * x ^ 2 + γ * x) else 0
+    (ProbabilityTheory.cond ((volume.withDensity fun x => ENNReal.ofReal (g x)).prod unif01) {p | p.2 < eb p.1}).map Prod.fst
+      = ((volume.withDensity fun x => ENNReal.ofReal (f x)) univ)⁻¹ • volume.withDensity fun x => ENNReal.ofReal (f x) := by
+  intro g eb f
+  have hpos : MeasurableSet {x : ℝ | 0 < x} := measurableSet_lt measurable_const measurable_id
+  have hg : Measurable g := by
+    apply Measurable.ite hpos _ measurable_const
+    fun_prop
+  have heb : Measurable eb := by
+    apply Measurable.ite hpos _ measurable_const
+    simp only [gpAccept_eval]
+    fun_prop
+  refine rejection_cond_law' volume g f eb (Real.exp (-(γ * γ / (4 * (β - mhnDelta α β γ))))) (Real.exp_pos _) hg heb ?_ ?_ ?_ ?_
+  · intro x; simp only [eb]; split_ifs <;> [exact (Real.exp_pos _).le; exact le_rfl]
+  · intro x; simp only [eb]; split_ifs with hx
+    · exact Real.exp_le_one_iff.mpr (mhn_gamma_bound_nonpos (x ^ 2) α β γ (sq_nonneg x) hδ)
+    · exact zero_le_one
+  · intro x; simp only [g]; split_ifs with hx
+    · exact mul_nonneg (Real.rpow_nonneg hx.le _) (Real.exp_pos _).le
+    · exact le_rfl
+  · intro x; simp only [g, eb, f]; split_ifs with hx
+    · exact mhn_gamma_proposal_identity x α β γ hx
+    · simp
+
+/-- the hypothesis `δ < β` holds e.g. for `α = β = γ = 2` (what the getters hand over for `ModifiedHalfNormal(2, ·, ·)`):
+    `δ = 2 + (4 - 2·6)/8 = 1` -/
+example : mhnDelta 2 2 2 < 2 := by
+  have h36 : Real.sqrt 36 = 6 := by
+    rw [show (36:ℝ) = 6 ^ 2 by norm_num]; exact Real.sqrt_sq (by norm_num)
+  simp only [mhnDelta, Mhn.delta, eval_add, eval_sub, eval_mul, eval_div, eval_var, env4_1, env4_2, env4_3]
+  simp only [eval]
+  norm_num [h36]
 
 /-- **Finitely many iterations.**  If iteration `k + 1` is reached only after a rejection (probability `1 - p`,
     `p = acc univ` the acceptance probability of one iteration) and then behaves like a fresh loop — the recursion
